@@ -1,9 +1,10 @@
 from ..core import Ob
+from ..harness import c12 as _h   # noqa: F401
 
 H = 'vt.harness.c12'
 L = 'replicat.backends.local:Local.'
 EXPLANATION = (
-    'Claimed for the local backend, the stream wrappers and the re-authentication wrapper. E.local: operation (upload, overwrite, upload_stream, '
+    'E.local: operation (upload, overwrite, upload_stream, '
     'download, download_stream) x fault point inside the transfer (temp creation, open, before the first byte, after the first stream chunk, after '
     'the last, after the copy, at the final rename / truncate) x number of consecutive OSErrors 0..6 x payload size around the stream chunk x '
     'raw-or-wrapped stream are digits of a symbolic vector realize()d by z3 through CrossHair; the real Local methods run with the real backoff '
@@ -11,11 +12,14 @@ EXPLANATION = (
     'nothing is left behind; for >= 5 the operation ends with OSError after exactly 5 attempts, no object appears and a previous object is intact. '
     'S.fwd traces TQDMIOReader/Writer with SYMBOLIC seek/truncate arguments and results (CrossHair+z3): forwarded unchanged (the rate-limited wrapper '
     'is C20/R4). E.auth: expired authorisation a = 0..6 times, sync and async requires_auth. '
-    'S3-compatible and B2 adapters (HTTP retries, 429/5xx, re-auth recursion) need fake services behind httpx.MockTransport and are NOT part of this '
-    'claim; reading suggests B2._wait_and_trigger_reauth turns a persistent 5xx into unbounded recursion through requires_auth (noted, unverified).'
+    'E.remote runs the real S3-compatible and B2 adapters on the deterministic loop (back-off waits are virtual) against fake services with a fault plan '
+    '(HTTP 503/500/429 with retry-after, connection failure, download dropped after the first chunk, expired token) at the first or second request of the '
+    'operation, 0/1/2/3/5/never-ending consecutive times: up to 3 faults are masked with exact bytes and a payload re-read from offset 0, listings stay complete '
+    'across pages, a never-ending fault ends in an error after a bounded number of requests. Known finding F10: B2 turns a never-ending 5xx into unbounded '
+    're-authentication recursion.'
 )
 ASSUMPTIONS = ['backoff waits are stubbed (time.sleep of backoff._sync), max_tries and the fibonacci schedule are the real ones',
-               'faults are OSErrors raised at 7 (upload) / 6 (download) points of the local transfer', 'S3/B2 adapters outside the claim']
+               'faults are OSErrors raised at 7 (upload) / 6 (download) points of the local transfer', 'S3/B2 services are fakes written from the public API descriptions; sockets, TLS, signing outside the claim']
 
 
 def obligations(tier):
@@ -23,6 +27,10 @@ def obligations(tier):
         Ob('E.local', 'E', 'local transfers under transient/persistent OSErrors at every point: exact bytes or bounded error, rewound payload, no leftovers',
            '5 ops x 7 points x 0..6 faults x 4 sizes x raw/wrapped = 1960', [L + 'upload', L + 'upload_stream', L + 'download', L + 'download_stream'],
            module=H, func='e_local_faults', timeout=900, shards=4),
+        Ob('E.remote', 'E', 'S3-compatible and B2 adapters against fake services: 503/500/429/connection failure/dropped download/expired token x position x 0,1,2,3,5,never-ending consecutive faults: exact bytes, rewound payload, complete listings, bounded error',
+           '2 adapters x 7 ops x 6 fault kinds x 6 counts x 3 sizes x 2 positions = 3024', ['replicat.backends.s3c:S3Compatible._put_object_stream', 'replicat.backends.s3c:S3Compatible.download_stream',
+            'replicat.backends.b2:B2.upload_stream', 'replicat.backends.b2:B2.download_stream', 'replicat.backends.b2:_wait_and_trigger_reauth', 'replicat.utils:requires_auth'],
+           module=H, func='e_remote_faults', timeout=1800, shards=16, known={'F10': _h.known_f10}),
         Ob('S.fwd', 'S', 'TQDM stream wrappers forward seek/truncate/read/write arguments and results unchanged', 'symbolic ints and bytes <= 3',
            ['replicat.utils:TQDMIOBase.seek', 'replicat.utils:TQDMIOBase.truncate', 'replicat.utils:TQDMIOReader.read', 'replicat.utils:TQDMIOWriter.write'],
            module=H, func='s_tqdm_forward', timeout=300),
